@@ -308,6 +308,61 @@ theorem sim_runPairs (hS : Setup P c aL aS nL n) (hA : Accepts P c aL aS nL n) :
     | panic => exact ⟨rfl, hsim⟩
     | hang => exact ⟨rfl, hsim⟩
 
+/-- no step of the encoder touches a buffer source -/
+theorem readBlock_src_buffer (P : Params) {c : Bytes} {s : Enc} (h : s.src = .buffer c) : (readBlock P s).src = .buffer c := by
+  unfold readBlock
+  rw [h]
+  simp only [readBlockBuffer]
+  split
+  · rename_i h2
+    split at h2
+    · cases h2
+    · simp only [Option.some.injEq] at h2; subst h2; first | exact h | rfl
+  · first | exact h | rfl
+
+theorem rwa_src_buffer (P : Params) {c : Bytes} : ∀ (m : Nat) (s : Enc), s.src = .buffer c → (readWindowAux P m s).src = .buffer c := by
+  intro m
+  induction m with
+  | zero => intro s h; exact h
+  | succ m ih =>
+    intro s h
+    unfold readWindowAux
+    split
+    · exact h
+    · split
+      · exact ih _ (readBlock_src_buffer P h)
+      · exact h
+
+theorem readLoop_src_buffer (P : Params) {c : Bytes} (force : Bool) :
+    ∀ (fuel : Nat) (s : Enc), s.src = .buffer c → (readLoop P force fuel s).2.src = .buffer c := by
+  intro fuel
+  induction fuel with
+  | zero => intro s h; exact h
+  | succ fuel ih =>
+    intro s h
+    have h1 : (readWindow P s).src = .buffer c := rwa_src_buffer P _ s h
+    unfold readLoop
+    simp only
+    generalize readWindow P s = s1 at h1
+    split
+    · split
+      · split <;> exact h1
+      · exact h1
+    · split
+      · exact h1
+      · split
+        · exact ih _ h1
+        · exact h1
+
+theorem read_src_buffer (P : Params) {c : Bytes} {s : Enc} (f : Bool) (h : s.src = .buffer c) :
+    (BlockEnc.read P s f).2.src = .buffer c := by
+  unfold BlockEnc.read
+  split
+  · exact h
+  · cases f with
+    | true => exact readLoop_src_buffer P true _ _ h
+    | false => exact readLoop_src_buffer P false _ _ h
+
 theorem runAll_eq_runPairs (P : Params) : ∀ fuel s, runAll P fuel s = pkts (runPairs P fuel s).1 := by
   intro fuel
   induction fuel with
@@ -326,7 +381,9 @@ def nTransfers (P : Params) (closable : Bool) (fuel : Nat) : Nat → Source → 
   | k + 1, src =>
     match Enc.new P src closable with
     | .error _ => []
-    | .ok s0 => pkts (runPairs P fuel s0).1 :: nTransfers P closable fuel k (runPairs P fuel s0).2.src
+    | .ok s0 =>
+      -- the source is handed on as the read that ended the transfer (`None`) left it (`release`: `src := e'.src`)
+      pkts (runPairs P fuel s0).1 :: nTransfers P closable fuel k (BlockEnc.read P (runPairs P fuel s0).2 false).2.src
 
 theorem nTransfers_stream (hS : Setup P c aL aS nL n) (hA : Accepts P c aL aS nL n) {closable : Bool} {sb0 : Enc}
     (hq : Partition.blockPartitioning P.b P.len P.e = .ok (aL, aS, nL, n))
@@ -346,7 +403,9 @@ theorem nTransfers_stream (hS : Setup P c aL aS nL n) (hA : Accepts P c aL aS nL
     obtain ⟨hI0, hT0⟩ := inv_init hS closable
     rw [← hs0] at hI0 hT0
     obtain ⟨e1, e2⟩ := sim_runPairs hS hA fuel sb0 ss0 [] hsim hI0 hT0
-    obtain ⟨st', hst', hb', _⟩ := e2.srcs
+    obtain ⟨hI, hT, _, _⟩ := reach hS hA hI0 hT0 (by rw [hs0]) (reads_runPairs P fuel sb0)
+    obtain ⟨_, e3⟩ := sim_read hS hA (tr := pkts (runPairs P fuel sb0).1) false e2 hI hT
+    obtain ⟨st', hst', hb', _⟩ := e3.srcs
     unfold nTransfers
     rw [h2]
     simp only
@@ -363,11 +422,12 @@ theorem nTransfers_buffer (hS : Setup P c aL aS nL n) (hA : Accepts P c aL aS nL
     have hs0 := new_state hq h1
     obtain ⟨hI0, hT0⟩ := inv_init hS closable
     rw [← hs0] at hI0 hT0
-    obtain ⟨hI, _⟩ := reach hS hA hI0 hT0 (by rw [hs0]) (reads_runPairs P fuel sb0)
+    obtain ⟨hI, hT, _, _⟩ := reach hS hA hI0 hT0 (by rw [hs0]) (reads_runPairs P fuel sb0)
+    have hsrc := read_src_buffer P (s := (runPairs P fuel sb0).2) false hI.src
     unfold nTransfers
     rw [h1]
     simp only
-    rw [hI.src, ih, List.replicate_succ]
+    rw [hsrc, ih, List.replicate_succ]
 
 /-- the hypotheses shared by the whole-transfer theorems: repaired code, `E, B > 0`, non-empty object `c` of the
     announced length, `(aL, aS, nL, n)` = what `block_partitioning` returned, every block accepted by the codec.
